@@ -205,13 +205,15 @@ func child() {
 	}
 
 	var wg sync.WaitGroup
+	var churnDone atomic.Bool
 	var werr atomic.Value
 	for i, n := range srv.Nodes {
 		wg.Add(1)
 		go func(i int, n *ua.NodeID) {
 			defer wg.Done()
 			rng := vfgo.Rand(int64(c.Salt)*100 + int64(i))
-			for k := int64(1); k <= int64(c.Writes); k++ {
+			// at least c.Writes writes; with churn, keep writing until the churn rounds are over
+			for k := int64(1); k <= int64(c.Writes) || (c.Churn > 0 && !churnDone.Load() && k < 200000); k++ {
 				if c.Pause > 0 {
 					time.Sleep(time.Duration(rng.Intn(c.Pause)) * time.Microsecond)
 				}
@@ -229,16 +231,17 @@ func child() {
 		wg.Add(1)
 		go func() {
 			defer wg.Done()
+			defer churnDone.Store(true)
 			rng := vfgo.Rand(int64(c.Salt)*100 + 99)
 			for r := 0; r < c.Churn; r++ {
 				n := srv.Nodes[rng.Intn(len(srv.Nodes))]
-				time.Sleep(time.Duration(rng.Intn(3*c.Interval+1)) * time.Millisecond)
+				time.Sleep(time.Duration(rng.Intn(2*c.Interval+1)) * time.Millisecond)
 				rec.log("remove", n.StringID(), "", 0)
 				if err := sub.RemoveNodeIDs(ctx, n); err != nil {
 					cerr.Store(fmt.Sprintf("remove %s: %v", n.StringID(), err))
 					return
 				}
-				time.Sleep(time.Duration(rng.Intn(2*c.Interval+1)) * time.Millisecond)
+				time.Sleep(time.Duration(rng.Intn(c.Interval+1)) * time.Millisecond)
 				rec.log("add", n.StringID(), "", 0)
 				if err := sub.AddNodeIDs(ctx, n); err != nil {
 					cerr.Store(fmt.Sprintf("re-add %s: %v", n.StringID(), err))
